@@ -9,6 +9,7 @@ CONSTANTS
   WaitLeader = TRUE
   QueueSize = 10
   SpecialCids = {}
+  Raisers = {}
   InitConnected = TRUE
   Membership = FALSE
   CompactMin = 1000000
@@ -22,6 +23,13 @@ CONSTANTS
   Electors = {"a","b"}
   SubmitAt = {"a"}
   Advs0 = {"z","h","j"}
+  SnapSize = 100
+  Compactors = {}
+  FaultPairs = {{"a","b"},{"a","c"},{"b","c"},{"a","d"},{"b","d"},{"c","d"},{"a","e"},{"b","e"},{"c","e"},{"d","e"}}
+  Isolated0 = {}
+  MembCids = {}
+  MembTargets = {}
+  Spares = {}
   MaxDepth = 100
 CONSTRAINT Bound
 INVARIANT ApplyAgreement
@@ -40,4 +48,5 @@ PROPERTY P_HistAppendOnly
 PROPERTY P_CommitIsQuorumBacked
 PROPERTY P_LeaderCompleteness
 PROPERTY P_TermMonotone
+PROPERTY P_ApplyProgress
 CHECK_DEADLOCK FALSE
